@@ -111,7 +111,7 @@ package ntor
 //@ func KeypairFromHex(encoded) (kp, err)
 //@   serves C18 C10
 //@   ensures [C18:keypair_from_hex] (err == nil) == (ISHEX(encoded) && len(encoded) == 64) && (err == nil) == (kp != nil)
-//@   ensures err == nil ==> kp.private != nil && kp.public != nil && seq(kp.private) == UNHEX(encoded) && seq(kp.public) == X25519BASE(UNHEX(encoded)) && kp.representative == nil && fresh(kp) && fresh(kp.private) && fresh(kp.public)
+//@   ensures err == nil ==> kp.private != nil && kp.public != nil && seq(kp.private) == UNHEX(encoded) && seq(kp.public) == X25519BASE(UNHEX(encoded)) && kp.representative == nil && fresh(kp) && fresh(kp.private) && fresh(kp.public) && kp.public != kp.private
 
 // Key generation: the public key always belongs to the private key that is returned (for the Elligator
 // form: the "dirty" public key of x25519ell2 together with its representative).  Termination of the
